@@ -149,6 +149,11 @@ class Lower:
                 if e[2][1] not in self.locals:
                     self.bad('assignment to an undeclared local', st)
                 return '(WSet %s %s)' % (LOCALS[e[2][1]], self.r(e[3]))
+            if e[0] == 'assign' and e[1] == '+=' and e[2][0] == 'id' and e[2][1] in LOCALS:
+                # x += e   is   x = x + e
+                if e[2][1] not in self.locals:
+                    self.bad('assignment to an undeclared local', st)
+                return '(WSet %s (RAdd %s %s))' % (LOCALS[e[2][1]], self.r(e[2]), self.r(e[3]))
             if e[0] == 'call' and e[1][0] == 'tmpl' and e[1][1] == 'check_static_offset' and len(e[2]) == 2:
                 return '(WCheck %s %s)' % (self.r(e[2][0]), self.r(e[2][1]))
             self.bad('expression statement not in the subset', st)
